@@ -610,9 +610,13 @@ func c15Run(cv *c15Curve, sc c15Scenario, dd *c15Dedupe) (res *c15Result) {
 				res.Drift = append(res.Drift, "a degenerate share verifies")
 			}
 		case c.kind == "id" && congruentID, c.kind == "share" && congruentShare && c.share.Sign() >= 0:
-			// the same element of Z_q written as another integer: not an alteration
+			// the same element of Z_q written as another integer: not an alteration; the model says it verifies like the
+			// dealt one, the property says nothing
 			if got {
 				res.AliasAccepted++
+			}
+			if got != smooth(c.id) {
+				res.Drift = append(res.Drift, fmt.Sprintf("Verify of a congruent %s [%s] returns %v, the dealt share %v (not demanded by the property)", c.kind, c.sub, got, smooth(c.id)))
 			}
 		case c.kind == "id":
 			if c15Eval(a, cv.mod(c.id), q).Cmp(cv.mod(c.share)) == 0 {
@@ -624,6 +628,9 @@ func c15Run(cv *c15Curve, sc c15Scenario, dd *c15Dedupe) (res *c15Result) {
 		default:
 			if c.mustFail && got {
 				res.viol(c.key, "Share.Verify on %s accepts a %s alteration [%s] of share %d (t=%d, n=%d, id %s)", cv.Name, c.kind, c.sub, c.i, t, n, core15Short(ids[c.i]))
+			}
+			if !c.mustFail && got {
+				res.Drift = append(res.Drift, fmt.Sprintf("Verify accepts a %s case [%s] that the model rejects (not demanded by the property)", c.kind, c.sub))
 			}
 		}
 		if cv.Toy != nil && !c.nolog && (c.kind == "own" || logAlt[c.i]) && len(res.Viols)+len(res.Drift) == before {
@@ -677,13 +684,27 @@ func c15Run(cv *c15Curve, sc c15Scenario, dd *c15Dedupe) (res *c15Result) {
 		default:
 			res.FewerCalls++
 			if rerr == nil && got != nil && cv.mod(got).Cmp(secretModQ) == 0 {
-				// t shares interpolate to the secret: at toy size this is chance (1/q of the polynomials), see Secrecy in
-				// FeldmanVSS.tla; at 256 bits it cannot happen unless the sharing is broken
+				// at most t shares give the secret. Cannot happen for a polynomial of degree exactly t: the polynomial g of
+				// degree < t through t of its points differs from it at 0 by a_t * prod(-x_i) != 0 (Reconstruction in
+				// FeldmanVSS.tla); fewer than t shares are refused
 				res.FewerHits++
-				if cv.Toy == nil {
-					res.viol("C15:ReConstruct:fewer-than-t+1-shares-give-the-secret", "Shares.ReConstruct on %s returns the secret from %d <= t = %d shares", cv.Name, len(idx), t)
-					continue
+				res.viol("C15:ReConstruct:fewer-than-t+1-shares-give-the-secret", "Shares.ReConstruct on %s returns the secret from %d <= t = %d shares", cv.Name, len(idx), t)
+				continue
+			}
+			// what the model says about fewer than t+1 shares (fewer than t: error; exactly t: the value at 0 of the
+			// polynomial of degree < t through them) is not demanded by the property: a departure is drift
+			modelErr := len(idx) < t
+			var modelVal *big.Int
+			if !modelErr {
+				xs2, ys2 := make([]*big.Int, len(idx)), make([]*big.Int, len(idx))
+				for m, i := range idx {
+					xs2[m], ys2[m] = cv.mod(ids[i]), cv.mod(shares[i].Share)
 				}
+				modelVal, _ = c15AtZero(xs2, ys2, q)
+			}
+			if (rerr != nil) != modelErr || (rerr == nil && (got == nil || modelVal == nil || cv.mod(got).Cmp(modelVal) != 0)) {
+				res.Drift = append(res.Drift, fmt.Sprintf("ReConstruct with %d <= t = %d shares returns %v, %v; the model says %v (not demanded by the property)", len(idx), t, core15ShortP(got), rerr, core15ShortP(modelVal)))
+				continue
 			}
 		}
 		if rerr == nil && got != nil {
@@ -888,7 +909,7 @@ func c15VerifyCalls(cv *c15Curve, sc c15Scenario, rng *rand.Rand, t int, ids []*
 		shape("last-commitment-dropped", t, t, vs[:t], false)
 		shape("commitment-appended", t, t, append(append(vss.Vs{}, vs...), vs[t]), false)
 		shape("commitment-appended,threshold+1", t, t+1, append(append(vss.Vs{}, vs...), vs[t]), false)
-		shape("share-threshold+1", t+1, t, vs, false)
+		out = append(out, c15VCall{kind: "shape", sub: "share-threshold+1", i: i, sthr: t + 1, id: ids[i], share: s, thr: t, vs: vs}) // the Threshold field of a share: recorded (model: false), not judged
 		shape("no-commitments", t, t, nil, true)
 	}
 	return out
